@@ -28,6 +28,7 @@
 
 """Handling for log actions."""
 
+import string
 from typing import TYPE_CHECKING, List, Dict, Optional
 
 from .action_context import ActionContext
@@ -62,37 +63,49 @@ class LogActionContext(ActionContext):
             (list) watch: the watch results from the expressions
             (dic) vars: the collected variables
         """
-        ctx_self = self
         watch_results = []
         _var_lookup = {}
 
-        class FormatDict(dict):
-            """This type is used in the log process to ensure that missing values are formatted don't error."""
-
-            def __missing__(self, key):
-                return "{%s}" % key
-
-        import string
-
-        class FormatExtractor(string.Formatter):
-            """
-            Allows logs to be formatted correctly.
-
-            This type allows us to use watches within log strings and collect the watch
-            as well as interpolate the values.
-            """
-
-            def get_field(self, field_name, args, kwargs):
-                # evaluate watch
-                watch, var_lookup, log_str = ctx_self.eval_watch(field_name, WATCH_SOURCE_LOG)
-                # collect data
-                watch_results.append(watch)
-                _var_lookup.update(var_lookup)
-
-                return log_str, field_name
-
-        log_msg = "[deep] %s" % FormatExtractor().vformat(log_msg, (), FormatDict(self.trigger_context.locals))
+        extractor = FormatExtractor(self, watch_results, _var_lookup)
+        log_msg = "[deep] %s" % extractor.vformat(log_msg, (), FormatDict(self.trigger_context.locals))
         return log_msg, watch_results, _var_lookup
+
+
+class FormatDict(dict):
+    """This type is used in the log process to ensure that missing values are formatted don't error."""
+
+    def __missing__(self, key):
+        """Format a missing value as its own field."""
+        return "{%s}" % key
+
+
+class FormatExtractor(string.Formatter):
+    """
+    Allows logs to be formatted correctly.
+
+    This type allows us to use watches within log strings and collect the watch
+    as well as interpolate the values.
+
+    These are module level types: a class defined inside process_log is only released by the garbage collector,
+    and would keep the context - and with it the frame and the variables of the application - alive until then.
+    """
+
+    def __init__(self, ctx: 'LogActionContext', watch_results: list, var_lookup: dict):
+        """Create a new extractor that evaluates the fields with the given context."""
+        super().__init__()
+        self.ctx = ctx
+        self.watch_results = watch_results
+        self.var_lookup = var_lookup
+
+    def get_field(self, field_name, args, kwargs):
+        """Evaluate a field as a watch."""
+        # evaluate watch
+        watch, var_lookup, log_str = self.ctx.eval_watch(field_name, WATCH_SOURCE_LOG)
+        # collect data
+        self.watch_results.append(watch)
+        self.var_lookup.update(var_lookup)
+
+        return log_str, field_name
 
 
 class LogActionResult(ActionResult):
